@@ -475,6 +475,123 @@ func codecScope(fn *ssa.Function) []*ssa.Function {
 	return out
 }
 
+// isShiftCount: v is used (possibly through a conversion) as the count of a shift.
+func isShiftCount(v ssa.Value, depth int) bool {
+	if depth > 2 || v.Referrers() == nil {
+		return false
+	}
+	for _, ref := range *v.Referrers() {
+		switch x := ref.(type) {
+		case *ssa.BinOp:
+			if (x.Op == token.SHL || x.Op == token.SHR) && x.Y == v {
+				return true
+			}
+		case *ssa.Convert:
+			if isShiftCount(x, depth+1) {
+				return true
+			}
+		}
+	}
+	return false
+}
+
+// countdown recognises a loop counter  for s := K; s >= L; s--  used as a shift count and returns
+// (K, number of values taken).
+func countdown(in ssa.Instruction) (top, count int64, ok bool) {
+	ph, isPhi := in.(*ssa.Phi)
+	if !isPhi || len(ph.Edges) != 2 || !isInt(ph.Type()) || !isShiftCount(ph, 0) {
+		return 0, 0, false
+	}
+	var K int64
+	haveK, haveDec := false, false
+	for _, e := range ph.Edges {
+		if k, isK := constInt(e); isK {
+			K, haveK = k, true
+		} else if bo, isBo := e.(*ssa.BinOp); isBo && bo.Op == token.SUB && bo.X == ssa.Value(ph) {
+			if one, isOne := constInt(bo.Y); isOne && one == 1 {
+				haveDec = true
+			}
+		}
+	}
+	if !haveK || !haveDec {
+		return 0, 0, false
+	}
+	count = -1
+	if iff, isIf := ph.Block().Instrs[len(ph.Block().Instrs)-1].(*ssa.If); isIf {
+		if bo, isBo := iff.Cond.(*ssa.BinOp); isBo && bo.X == ssa.Value(ph) {
+			if l, isK := constInt(bo.Y); isK {
+				switch bo.Op {
+				case token.GEQ:
+					count = K - l + 1
+				case token.GTR:
+					count = K - l
+				}
+			}
+		}
+	}
+	return K, count, true
+}
+
+// maskWalk recognises a one-hot byte mask that starts at a constant power of two and moves right
+// by one position per step (mask >>= 1), and returns the bit index it starts at; wraps reports
+// whether the moved mask is compared with zero (all lower positions used).
+func maskWalk(in ssa.Instruction) (top int64, wraps bool, ok bool) {
+	sh, isBo := in.(*ssa.BinOp)
+	if !isBo || sh.Op != token.SHR || !isByte(sh.Type()) {
+		return 0, false, false
+	}
+	if one, isK := constInt(sh.Y); !isK || one != 1 {
+		return 0, false, false
+	}
+	// constants feeding the mask through phis
+	consts := map[int64]bool{}
+	seen := map[ssa.Value]bool{}
+	var walk func(v ssa.Value)
+	walk = func(v ssa.Value) {
+		if seen[v] {
+			return
+		}
+		seen[v] = true
+		if k, isK := constInt(v); isK {
+			consts[k] = true
+			return
+		}
+		switch x := v.(type) {
+		case *ssa.Phi:
+			for _, e := range x.Edges {
+				walk(e)
+			}
+		case *ssa.BinOp:
+			if x.Op == token.SHR {
+				walk(x.X)
+			}
+		}
+	}
+	walk(sh.X)
+	if len(consts) != 1 {
+		return 0, false, false
+	}
+	for k := range consts {
+		if k <= 0 || k&(k-1) != 0 {
+			return 0, false, false
+		}
+		for k > 1 {
+			k >>= 1
+			top++
+		}
+	}
+	if refs := sh.Referrers(); refs != nil {
+		for _, ref := range *refs {
+			if cmp, isCmp := ref.(*ssa.BinOp); isCmp && (cmp.Op == token.EQL || cmp.Op == token.NEQ) {
+				if z, isK := constInt(cmp.Y); isK && z == 0 {
+					wraps = true
+				}
+			}
+		}
+	}
+	return top, wraps, true
+}
+
 func roleConsts(fn *ssa.Function, match func(in ssa.Instruction) (int64, bool)) []int64 {
 	set := map[int64]bool{}
 	for _, f := range codecScope(fn) {
@@ -543,25 +660,6 @@ func ruleSextet(c *Ctx) *RuleResult {
 		k, ok := constInt(bo.X)
 		if !ok {
 			return 0, false
-		}
-		var isShiftCount func(v ssa.Value, depth int) bool
-		isShiftCount = func(v ssa.Value, depth int) bool {
-			if depth > 2 || v.Referrers() == nil {
-				return false
-			}
-			for _, ref := range *v.Referrers() {
-				switch x := ref.(type) {
-				case *ssa.BinOp:
-					if (x.Op == token.SHL || x.Op == token.SHR) && x.Y == v {
-						return true
-					}
-				case *ssa.Convert:
-					if isShiftCount(x, depth+1) {
-						return true
-					}
-				}
-			}
-			return false
 		}
 		if isShiftCount(bo, 0) {
 			return k, true
@@ -645,11 +743,35 @@ func ruleSextet(c *Ctx) *RuleResult {
 			r.find(fnName+":k formula", c.pos(fn.Pos()), "%s does not compute the bit width as 64 - LeadingZeros64(n-1) (bits needed for n-1)", fnName)
 		}
 	}
+	union := func(sets ...[]int64) []int64 {
+		m := map[int64]bool{}
+		for _, s := range sets {
+			for _, v := range s {
+				m[v] = true
+			}
+		}
+		var out []int64
+		for v := range m {
+			out = append(out, v)
+		}
+		sort.Slice(out, func(i, j int) bool { return out[i] < out[j] })
+		return out
+	}
+	cdTop := func(in ssa.Instruction) (int64, bool) { t, _, ok := countdown(in); return t, ok }
+	cdBits := func(in ssa.Instruction) (int64, bool) { _, n, ok := countdown(in); return n, ok && n >= 0 }
+	mkTop := func(in ssa.Instruction) (int64, bool) { t, _, ok := maskWalk(in); return t, ok }
+	mkBits := func(in ssa.Instruction) (int64, bool) { t, w, ok := maskWalk(in); return t + 1, ok && w }
 	for _, d := range []string{"graph.Graph6Decode", "graph.Sparse6Decode"} {
 		fn := c.Fn(d)
-		role(d, "bits per byte (position / 6)", roleConsts(fn, quoBy), 6)
-		role(d, "bits per byte (position % 6)", roleConsts(fn, remBy), 6)
-		role(d, "top bit index (5 - position%6)", roleConsts(fn, subFrom), 5)
+		// each role may be written in several ways; every way that occurs must agree with the format
+		role(d, "bits per byte (position / 6, position % 6, or a shift counter over 5..0)", union(roleConsts(fn, quoBy), roleConsts(fn, remBy), roleConsts(fn, cdBits), roleConsts(fn, mkBits)), 6)
+		if q := roleConsts(fn, quoBy); len(q) > 0 {
+			role(d, "bits per byte (position / 6)", q, 6)
+		}
+		if m := roleConsts(fn, remBy); len(m) > 0 {
+			role(d, "bits per byte (position % 6)", m, 6)
+		}
+		role(d, "top bit index (5 - position%6, or the start of the shift counter / mask)", union(roleConsts(fn, subFrom), roleConsts(fn, cdTop), roleConsts(fn, mkTop)), 5)
 		role(d, "byte offset", roleConsts(fn, byteOffset), 63)
 		role(d, "lowest valid byte", roleConsts(fn, rangeLo), 63)
 		role(d, "highest valid byte", roleConsts(fn, rangeHi), 126)
@@ -658,8 +780,8 @@ func ruleSextet(c *Ctx) *RuleResult {
 	}
 	for _, e := range []string{"graph.Graph6Encode", "graph.Sparse6Encode"} {
 		fn := c.Fn(e)
-		role(e, "top bit index (5 - position)", roleConsts(fn, subFrom), 5)
-		role(e, "bits per byte (wrap at)", roleConsts(fn, wrapAt), 6)
+		role(e, "top bit index (5 - position, or the start of the shift counter / mask)", union(roleConsts(fn, subFrom), roleConsts(fn, cdTop), roleConsts(fn, mkTop)), 5)
+		role(e, "bits per byte (wrap at)", union(roleConsts(fn, wrapAt), roleConsts(fn, cdBits), roleConsts(fn, mkBits)), 6)
 		role(e, "byte offset", roleConsts(fn, byteOffset), 63)
 	}
 	kFormula("graph.Sparse6Decode")
